@@ -88,6 +88,33 @@ def _decompress(data: bytes, compression: str) -> bytes:
     raise ValueError(compression)
 
 
+def decoder_rejects(path: Path, fmt: str, compression: str) -> bool:
+    """Do the codec / third-party decoder that the pure-Python readers rely on RAISE on these bytes? (Weaker than
+    `decode_shard(...) is None`, which also verifies the payload: a buffer of NUL bytes, for instance, is a valid
+    FlatBuffers shard with no examples as far as the Python FlatBuffers accessors are concerned.)"""
+    try:
+        if fmt == "fb":
+            import sedpack.io.flatbuffer.shardfile.Shard as fbShard
+            raw = _decompress(path.read_bytes(), compression)
+            shard = fbShard.Shard.GetRootAs(raw, 0)
+            for i in range(shard.ExamplesLength()):
+                ex = shard.Examples(i)
+                for j in range(ex.AttributesLength()):
+                    bytes(ex.Attributes(j).AttributeBytesAsNumpy())
+        elif fmt == "npz":
+            with np.load(path) as z:
+                for k in z.files:
+                    z[k]  # pylint: disable=pointless-statement
+        elif fmt == "tfrec":
+            import tensorflow as tf
+            feats = {"id": tf.io.FixedLenFeature((1,), tf.int64), "x": tf.io.FixedLenFeature((3,), tf.float32)}
+            for rec in tf.data.TFRecordDataset(str(path), compression_type=compression):
+                tf.io.parse_single_example(rec, feats)
+        return False
+    except Exception:  # pylint: disable=broad-except
+        return True
+
+
 def decode_shard(path: Path, fmt: str, compression: str):
     """Returns the list of example ids stored in the shard file (payload verified), or None when the file is
     not decodable (torn / garbage)."""
@@ -479,8 +506,17 @@ class Replayer:
         self.ds = None
         self.open_relative = (self.nmoves % 2 == 0)
 
+    @staticmethod
+    def _seed_rngs():
+        # what a data-preparation script does at the top of every run "for reproducibility": file names, directory
+        # names and every other thing that must be unique across sessions may not come from these generators
+        import random as _random
+        _random.seed(20240607)
+        np.random.seed(20240607)
+
     def begin_filler(self, d):
         from sedpack.io.dataset_filler import DatasetFiller
+        self._seed_rngs()
         self.nsess += 1
         self.filler = DatasetFiller(self.ds, relative_path_from_split=Path(*d) if d else Path("."))
         self.ctx = self.filler.__enter__()
@@ -529,6 +565,7 @@ class Replayer:
         self.done.append(self.nsess)
 
     def multi_begin(self, k):
+        self._seed_rngs()
         self.nsess += 1
         self.multi = {"k": k, "plans": {}}
 
